@@ -34,7 +34,7 @@ ASSUMPTIONS = [
     "(stop()/failure happened and no function Deferred is outstanding)",
 ]
 MIN = {"quick": {"evaluations": 1000000, "nontrivial": 110000, "outcomes": 8},
-       "thorough": {"evaluations": 14800000, "nontrivial": 480000, "outcomes": 7}}
+       "thorough": {"evaluations": 18800000, "nontrivial": 950000, "outcomes": 8}}
 
 _Q = dict(L=4, intervals=[0.5, 1.5], advances=[0.25, 0.5, 1.5, 2.5, 7.0], offsets=[0.0, 0.75],
           behs=["ret", "defer", "raise", "stopself", "succeed", "fail", "stopdefer"], slow=[0.25, 1.0, 2.5])
